@@ -41,7 +41,8 @@ class Variables:
                 assert set_expressions, "SET without values in expression(s) is unexpected."
                 eq = set_expressions[0].this
                 name = eq.this.sql()
-                value = eq.args.get("expression").sql()
+                # render as snowflake sql because the value is inlined into snowflake sql statements
+                value = eq.args.get("expression").sql(dialect="snowflake")
                 self._set(name, value)
             else:
                 # Haven't been able to produce this in tests yet due to UNSET being parsed as an Alias expression.
